@@ -62,7 +62,7 @@ func apiCases(key uint64) []run.Case {
 }
 
 func casesOf(steps []apiStep, final *run.Violation, malformed bool, hk string) []run.Case {
-	hs := &histState{}
+	hs := &histState{errClassLoose: looseErrClass(steps)}
 	cases := []run.Case{{Req: apiReset, Impl: `{"ok":null}`, Accept: func(m string) bool { return m == `{"ok":null}` }}}
 	for i, st := range steps {
 		kind := "call"
